@@ -6,11 +6,11 @@ from harness.core import MachineryError
 META = {
     "id": "C38",
     "level": "fault_enumeration",
-    "technique": "TLA+ spec FsFault (session = effect sequence, Fault at any step, control flow of __exit__/close) checked by TLC incl. design switch AtomicClose; on the real code every file-system effect of a solve and of an edit session is recorded through sys.addaudithook, validated against the model's close region by TLC, and the session is re-run once per effect (plus per tar member, per computation step - failing with an exception and with each of KeyboardInterrupt, SystemExit, GeneratorExit - and pairs in the thorough tier) with that point failing; TLC judges every outcome",
+    "technique": "TLA+ spec FsFault (session = effect sequence, Fault at any step, control flow of __exit__/close) checked by TLC incl. design switch AtomicClose; on the real code every file-system effect of a solve and of an edit session is recorded through sys.addaudithook, validated against the model's close region by TLC, and the session is re-run once per effect (in two worlds: temporary area on the file system of the output folder or on another one; plus per tar member, per bulk transfer of the standard library - sendfile, copy_file_range, copyfileobj - failing with ENOSPC, per computation step - failing with an exception and with each of KeyboardInterrupt, SystemExit, GeneratorExit - and pairs in the thorough tier) with that point failing; TLC judges every outcome",
     "text": "Fault enumeration: the set of fault points is every audited file-system effect (open, mkdir, remove, rename, rmdir, rmtree, mkdtemp) the real session issues under its scratch root, every tar member written by the dump and every computation / user-code step; each is failed once in a fresh world and the outcome (raised?, archive absent / byte-identical previous / complete new / partial, retry result) is judged by the TLA+ predicate C38_Intact. TLC also checks the design (all fault positions of the abstract session) and that the recorded effect sequence has the shape of the modelled close region.",
     "note": "Failures are exceptions raised at the fault point (not power loss); parts are synthetic small arrays so that a session takes 50 ms. A failure after the archive has been completely written (e.g. while removing the temporary directory) leaves the complete new archive: accepted as not corrupt/partial.",
     "design_ref": "4.4, 5 C38",
-    "rule": "fault point = (session kind new|edit|copy (edit + deepcopy to a second path), class effect|member|compute|kbdint|sysexit|genexit, index); every point executed once; thorough: ordered pairs (first fault at every effect, second fault on the retry at 5 sampled effects, then a clean retry); non-trivial = the fault fired",
+    "rule": "fault point = (world same-device|cross-device temporary area, session kind new|edit|copy (edit + deepcopy to a second path), class effect|member|compute|kbdint|sysexit|genexit, index); every point executed once; thorough: ordered pairs (first fault at every effect, second fault on the retry at 5 sampled effects, then a clean retry); non-trivial = the fault fired",
 }
 
 ATOMIC = "TRUE"  # the close() of the tree under test dumps to a sibling file and renames
@@ -19,20 +19,23 @@ ATOMIC = "TRUE"  # the close() of the tree under test dumps to a sibling file an
 def _run(args):
     from harness.drivers import fsfault
 
-    kind, cls, idx = args[:3]
+    (kind, world), cls, idx = args[:3]
+    x = world == "xdev"
     if cls == "pair":
-        r = fsfault.run_session(kind, fail_at=idx, retry_fail_at=args[3])
-        r.update(cls=cls, i=idx, j=args[3])
+        r = fsfault.run_session(kind, fail_at=idx, retry_fail_at=args[3], xdev=x)
+        r.update(cls=cls, i=idx, j=args[3], world=world)
         return r
     if cls == "effect":
-        r = fsfault.run_session(kind, fail_at=idx)
+        r = fsfault.run_session(kind, fail_at=idx, xdev=x)
     elif cls == "member":
-        r = fsfault.run_session(kind, tar_member_fail=idx)
+        r = fsfault.run_session(kind, tar_member_fail=idx, xdev=x)
+    elif cls == "bulk":
+        r = fsfault.run_session(kind, bulk_fail=idx, xdev=x)
     elif cls in fsfault.INTERRUPTS:
-        r = fsfault.run_session(kind, compute_fail_at=idx, compute_exc=cls)
+        r = fsfault.run_session(kind, compute_fail_at=idx, compute_exc=cls, xdev=x)
     else:
-        r = fsfault.run_session(kind, compute_fail_at=idx)
-    r.update(cls=cls, i=idx)
+        r = fsfault.run_session(kind, compute_fail_at=idx, xdev=x)
+    r.update(cls=cls, i=idx, world=world)
     return r
 
 
@@ -44,27 +47,41 @@ def run(chk):
     if r.violated:
         raise MachineryError(f"FsFault design violated: {r.counterexample()[:2000]}")
     chk.tlc("FsFault", "FsFault_FALSE.cfg", workers=4, expect_violation="C38_Intact", label="vacuity guard: unlink-then-dump close")
+    r = chk.tlc("FsFault", "FsFault_xdev.cfg", workers=4, label="design, temporary area on another device")
+    if r.violated:
+        raise MachineryError(f"FsFault design (cross-device) violated: {r.counterexample()[:2000]}")
+    chk.tlc("FsFault", "FsFault_xdev_stage.cfg", workers=4, expect_violation="C38_Intact", label="vacuity guard: archive staged in the temporary area and moved across devices")
     chk.tlc("FsFault", "FsFault_interrupt.cfg", workers=4, expect_violation="C38_Intact", label="vacuity guard: __exit__ closes on an interruption")
     # ---- record the fault-free sessions ----
     recs = []
     plan = []
     base = {}
-    for kind in ("new", "edit", "copy"):
-        b = fsfault.run_session(kind)
+    # worlds: temporary area and output folder on one file system / on two (effects and members only)
+    worlds = [("new", "same"), ("edit", "same"), ("copy", "same")]
+    if fsfault.xdev_available():
+        worlds += [("new", "xdev"), ("edit", "xdev")]
+    else:
+        chk.diag("no second writable file system: the cross-device world is not explored")
+    chk.note("worlds", [list(w) for w in worlds])
+    for kind in worlds:
+        b = fsfault.run_session(kind[0], xdev=kind[1] == "xdev")
         if b["raised"] or b["arc"] != "new":
             raise MachineryError(f"fault-free {kind} session failed: {b}")
         base[kind] = b
-        recs.append({"ev": "effects", "kind": kind, "steps": b["steps"]})
+        recs.append({"ev": "effects", "kind": kind[0], "world": kind[1], "steps": b["steps"]})
         plan += [(kind, "effect", i) for i in range(1, b["n"] + 1)]
         plan += [(kind, "member", i) for i in range(1, b["members"] + 1)]
-        plan += [(kind, "compute", i) for i in range(1, b["computes"] + 1)]
-        # interruptions (BaseException that is not an Exception) at every computation / user-code step
-        plan += [(kind, c, i) for c in sorted(fsfault.INTERRUPTS) for i in range(1, b["computes"] + 1)]
-        chk.sample({"kind": kind, "effects": b["n"], "tar_members": b["members"], "compute_steps": b["computes"],
+        # bulk transfers of the standard library (sendfile, copy_file_range, copyfileobj) failing with ENOSPC
+        plan += [(kind, "bulk", i) for i in range(1, b["bulk"] + 1)]
+        if kind[1] == "same":
+            plan += [(kind, "compute", i) for i in range(1, b["computes"] + 1)]
+            # interruptions (BaseException that is not an Exception) at every computation / user-code step
+            plan += [(kind, c, i) for c in sorted(fsfault.INTERRUPTS) for i in range(1, b["computes"] + 1)]
+        chk.sample({"kind": list(kind), "effects": b["n"], "tar_members": b["members"], "compute_steps": b["computes"], "bulk_transfers": b["bulk"],
                     "non_tmp_steps": [s for s in b["steps"] if s != "tmp"]})
     if chk.thorough():
         # ordered pairs: a first fault at every effect, a second fault on the retry run at sampled effects
-        for kind in ("new", "edit", "copy"):
+        for kind in worlds[:3]:
             n = base[kind]["n"]
             for i in range(1, n + 1):
                 for j in sorted(chk.rng.sample(range(1, n + 1), 5)):
@@ -73,18 +90,22 @@ def run(chk):
         outs = pool.map(_run, plan, chunksize=4)
     done = {}
     for o in outs:
-        chk.count(1, (o["kind"], o["cls"], o["i"]), nontrivial=o["fired"])
+        key = (o["kind"], o["world"])
+        chk.count(1, (key, o["cls"], o["i"], o.get("j", 0)), nontrivial=o["fired"])
         if not o["fired"]:
-            chk.diag(f"fault point did not fire: {o['kind']} {o['cls']} {o['i']}")
+            chk.diag(f"fault point did not fire: {key} {o['cls']} {o['i']}")
         if o["cls"] != "pair":
-            done.setdefault((o["kind"], o["cls"]), []).append(o["i"])
-        recs.append({"ev": "outcome", "kind": o["kind"], "cls": o["cls"], "i": o["i"], "n": o["n"],
+            done.setdefault((key, o["cls"]), []).append(o["i"])
+        recs.append({"ev": "outcome", "kind": o["kind"], "world": o["world"], "cls": o["cls"], "i": o["i"], "n": o["n"],
                      "raised": o["raised"], "arc": o["arc"], "retry": o["retry"], "origIntact": o["origIntact"],
                      "arc2nd": o["arc2nd"] or "none",
-                     "step": base[o["kind"]]["steps"][o["i"] - 1] if o["cls"] in ("effect", "pair") else o["cls"]})
-    for kind in ("new", "edit", "copy"):
-        for cls, n in [("effect", base[kind]["n"]), ("member", base[kind]["members"]), ("compute", base[kind]["computes"])] + [(c, base[kind]["computes"]) for c in sorted(fsfault.INTERRUPTS)]:
-            recs.append({"ev": "coverage", "kind": kind, "cls": cls, "n": n, "done": sorted(done.get((kind, cls), []))})
+                     "step": base[key]["steps"][o["i"] - 1] if o["cls"] in ("effect", "pair") else o["cls"]})
+    for kind in worlds:
+        classes = [("effect", base[kind]["n"]), ("member", base[kind]["members"]), ("bulk", base[kind]["bulk"])]
+        if kind[1] == "same":
+            classes += [("compute", base[kind]["computes"])] + [(c, base[kind]["computes"]) for c in sorted(fsfault.INTERRUPTS)]
+        for cls, n in classes:
+            recs.append({"ev": "coverage", "kind": kind[0], "world": kind[1], "cls": cls, "n": n, "done": sorted(done.get((kind, cls), []))})
     chk.sample(next(x for x in recs if x["ev"] == "outcome" and x.get("step") not in ("tmp",)))
     res = chk.tlc("FsFaultTrace", f"FsFaultTrace_{ATOMIC}.cfg", trace=recs, workers=1, label="outcomes judged by C38 predicates")
     if res.violated or not res.completed:
@@ -96,7 +117,7 @@ def run(chk):
         rec = recs[t[1] - 1]
         v = t[2]
         if v.startswith("C38:"):
-            fp = f"{v} kind={rec['kind']} at={rec.get('step')}"
+            fp = f"{v} kind={rec['kind']} at={rec.get('step')}" + ("" if rec.get("world", "same") == "same" else " temp-area-on-another-device")
             if fp not in seen:
                 seen.add(fp)
                 chk.violation(fp, f"{v}: session {rec['kind']}, failing {rec['cls']} #{rec['i']} ({rec.get('step')}): raised={rec['raised']} archive={rec['arc']} retry={rec['retry']}", rec)
